@@ -8,6 +8,7 @@ stakers' fee pool) their governance-set percentages rounded down, leave the non-
 in the module account and touch no other balance; a failed message changes nothing.
 -/
 import Canine.Proofs.StorageC
+import Canine.Generated.PureFns
 namespace Canine.Storage
 open Bank
 
@@ -739,5 +740,28 @@ example : buyStorage { exBuy with params := { exParams with polRatio := 5 } } 10
 example : (postFile exBuy 10 1000 "alice" "abcd" 1000000 3 1440010 0 "{}" true exPrice "g2" "gauge2").map (·.bank)
     = some [(("alice", "ujkl"), 99999867), (("storage", "ujkl"), 87), (("gauge2", "ujkl"), 46)] := by decide
 example : postCost exBuy 10 1000000 3 1440010 exPrice = 133 ∧ (133 * (100 - 25 - 40) / 100 : Int) = 46 := by decide
+
+/-! ## The price formulas as they stand in the source (regenerated tie) -/
+
+/-- `GetStorageCostKbsWithPrice`, translated from x/storage/keeper/utils.go on every run, is the
+model's `storageCostKbs` (its only outside input being the JKL price). -/
+theorem C04_generated_kbs_price_is_the_model (pp kbs hours : Int) (jkl : Dec) :
+    Generated.Pure.GetStorageCostKbsWithPrice jkl kbs hours pp = storageCostKbs pp kbs hours jkl ∧
+    Generated.Pure.GetStorageCostKbsWithPrice_inputs = ["k.GetJklPrice(ctx)"] := by
+  refine ⟨?_, rfl⟩
+  simp only [Generated.Pure.GetStorageCostKbsWithPrice, storageCostKbs, bind, Option.bind]
+
+/-- `GetStorageCost`, translated from the source on every run, is the model's `storageCost`: the
+same tiers (≥ 20 000 GB, ≥ 5 000 GB), the same monthly/yearly switch at 365·24 hours, the same
+decimal constants, the same order of truncating divisions. -/
+theorem C04_generated_plan_price_is_the_model (pp gbs hours : Int) (jkl : Dec) :
+    Generated.Pure.GetStorageCost pp jkl gbs hours = storageCost pp gbs hours jkl ∧
+    Generated.Pure.GetStorageCost_inputs = ["k.GetParams(ctx).PricePerTbPerMonth", "k.GetJklPrice(ctx)"] := by
+  refine ⟨?_, rfl⟩
+  unfold Generated.Pure.GetStorageCost storageCost
+  by_cases h1 : hours < 365 * 24 <;> by_cases h2 : gbs ≥ 20000 <;> by_cases h3 : gbs ≥ 5000 <;>
+    simp only [h1, h2, h3, decide_true, decide_false, if_true, if_false, bind, Option.bind, dec12_5,
+      dec10_42, dec11_67, Option.map, Bool.false_eq_true] <;>
+    (try rfl)
 
 end Canine.Storage
